@@ -1025,6 +1025,11 @@ func (ds *AnySource) ConfigurePulseLengths(nsamp, npre int) error {
 		nsamp < npre+1 { // require at least one post trigger sample
 		return fmt.Errorf("ConfigurePulseLengths nsamp %v, npre %v are invalid", nsamp, npre)
 	}
+	for _, dsp := range ds.processors { // reject before changing any channel
+		if err := dsp.checkPulseLengths(nsamp, npre); err != nil {
+			return err
+		}
+	}
 	for _, dsp := range ds.processors {
 		if err := dsp.ConfigurePulseLengths(nsamp, npre); err != nil {
 			return err
